@@ -281,6 +281,19 @@ pub fn c11(out: &mut dyn Write, tier: &str, rng: &mut Rng, st: &mut Stats) {
                 None => "UNREADABLE|".to_string() } };
             // … and its columns must stand in the order of the file (the free variables as the library orders them under it)
             writeln!(out, "C11|tables|{}|{}|{}|{}|{}", r0.class, tab(&r0), r1.class, tab(&r1), if free_o == "ERR" { "-".to_string() } else { free_o.clone() }).unwrap();
+            // every other case: the ordering option given twice (two files that list the names differently).  The tool
+            // refuses that; if it ever accepts it, what it prints must still be the formula's table
+            if i % 4 == 3 {
+                let scratch = std::env::var("VERIF_SCRATCH").unwrap_or_else(|_| ".".to_string());
+                let second = format!("{}/c11_second_ordering.txt", scratch);
+                let mut rev: Vec<String> = names.clone(); rev.reverse();
+                if rev.len() > 1 && rng.chance(1, 2) { rev.truncate(rev.len() - 1); }
+                let _ = std::fs::write(&second, rev.join("\n"));
+                let spelled: Vec<String> = match (i / 4) % 3 { 0 => vec!["-t".into(), "-o".into(), second.clone()], 1 => vec!["-t".into(), format!("--ordering={}", second)], _ => vec![format!("--ordering={}", second), "-t".into()] };
+                let r3 = run_tool(text.as_bytes(), ch, Some(&ordering), &spelled, "c11");
+                writeln!(out, "C11|tables|{}|{}|{}|{}", r0.class, tab(&r0), r3.class, tab(&r3)).unwrap();
+                st.hit(&format!("ordering-given-twice.{}", r3.class));
+            }
             writeln!(out, "C11|order|{}|{}|T:{}|{}|{}|{}|{}|{}|{}|{}|{}", hex(text.as_bytes()), classes_of(&text), hex(&ordering),
                 std::str::from_utf8(&ordering).map(classes_of).unwrap_or_default(), vars_d, res_d, vars_o, res_o, roundtrip, free_d, free_o).unwrap();
             st.hit("cli");
